@@ -44,6 +44,7 @@ func runC20(r *Run) {
 	if r.Want("stats") {
 		c20Stats(r)
 	}
+	c20ServerReset(r)
 }
 
 // c20Chain: server-side chains of 1..6 interceptors that rewrite request, reply and context.
